@@ -9,7 +9,7 @@ SRC = '/tmp/seedstage'
 DST = '/verif/seeded'
 EXTRA = {'C02-m2': ['C01'], 'C06-m1': ['C09'], 'C07-m1': ['C09'], 'C09-m1': ['C07'], 'C09-m2': ['C06'], 'C09-m3': ['C01', 'C02'], 'C01-m4': ['C09'],
          'C07-m4': ['C09'], 'C10-m3': ['C15'], 'C05-m6': ['C09'], 'C10-m6': ['C09'], 'C12-m5': ['C08'], 'C07-m6': ['C09'], 'C01-m5': ['C09'],
-         'C07-m7': ['C09'], 'C11-m7': ['C09'], 'C11-m8': ['C09'], 'C14-m8': ['C09'], 'C16-m7': ['C09']}
+         'C07-m7': ['C09'], 'C11-m7': ['C09'], 'C11-m8': ['C09'], 'C14-m8': ['C09'], 'C16-m7': ['C09'], 'C12-m8': ['C08']}
 args = [a for a in sys.argv[1:] if not a.startswith('--')]
 norun = '--no-run' in sys.argv
 head = subprocess.check_output(['git', '-C', '/repo', 'rev-parse', '--short', 'HEAD'], text=True).strip()
